@@ -11,6 +11,7 @@ mod textgen;
 
 mod mon_c01;
 mod mon_c02;
+mod mon_c17;
 
 use report::Report;
 use std::time::Instant;
@@ -108,6 +109,7 @@ fn main() {
     match ctx.prop.as_str() {
         "C01" => mon_c01::run(&ctx, &mut rep),
         "C02" => mon_c02::run(&ctx, &mut rep),
+        "C17" => mon_c17::run(&ctx, &mut rep),
         other => {
             eprintln!("unknown property {}", other);
             std::process::exit(3);
